@@ -86,3 +86,158 @@ Proof.
     + okinv. all: f_equal; eapply IH; eauto.
     + okinv. f_equal; eapply IH; eauto.
 Qed.
+
+(* ------------------------------------------------------------------ handle_disconnection saves, handle_new_connection restores *)
+Lemma push_out_links st k ns st' n : push_out st k ns = Ok (st', n) -> exists l, st' = set_r_links st l.
+Proof. unfold push_out, link_get. intros H. okinv. eexists. reflexivity. Qed.
+
+(** the session [handle_disconnection] leaves in the graveyard *)
+Definition saved_session (st : rstate) (id : N) (conn : connection) (outg : outgoing) (trk : tracker) : option session :=
+  if c_clean conn then None
+  else Some {| ss_tracker := {| tr_id := tr_id trk;
+                                tr_reqs := map (rewind (retransmission_map (o_inflight outg) []))
+                                               (tr_reqs trk ++ snd (dl_clean (r_datalog st) id));
+                                tr_status := Paused Busy |};
+               ss_subs := c_subs conn;
+               ss_pubrels := o_pubrels outg |}.
+
+Lemma hdisc_saves st id reason st' conn outg trk :
+  handle_disconnection st id reason = Ok st' ->
+  slab_get (r_conns st) id = Some conn -> slab_get (r_obufs st) id = Some outg ->
+  slab_get (r_trackers st) id = Some trk ->
+  al_get str_eqb (tr_id trk) (r_graveyard st') = Some (saved_session st id conn outg trk) /\
+  (forall c, c <> tr_id trk -> al_get str_eqb c (r_graveyard st') = al_get str_eqb c (r_graveyard st)).
+Proof.
+  intros H Hc Ho Ht. unfold handle_disconnection in H. rewrite Ho in H.
+  match type of H with bind ?x _ = _ => destruct x as [st0 | |] eqn:E0 end; cbn [bind] in H; try discriminate.
+  assert (Hl : exists l, st0 = set_r_links st l).
+  { clear H. destruct reason as [rc|].
+    - okinv. eapply push_out_links; eauto.
+    - okinv. match goal with |- exists l, ?s = set_r_links ?s l => exists (r_links s); destruct s; reflexivity end. }
+  destruct Hl as (l & ->). clear E0. rsimpl in H.
+  unfold slab_remove in H. rewrite Hc, Ho, Ht in H.
+  destruct (slab_get (r_ibufs st) id); [|discriminate].
+  destruct (slab_get (r_acks st) id); [|discriminate].
+  destruct (dl_clean (r_datalog st) id) as [dl q] eqn:Ed.
+  unfold saved_session. rewrite Ed. cbn [snd].
+  destruct (c_clean conn); cbn [negb] in H.
+  - okinv. rsimpl. split.
+    + now rewrite al_get_set_same by apply str_eqb_spec.
+    + intros c Hn. rewrite al_get_set_other, al_get_remove_other by (auto using str_eqb_spec). reflexivity.
+  - destruct (rewind_requests _ _ _) as [[rqs' gs] | |] eqn:Er; cbn [bind] in H; try discriminate.
+    apply rewind_requests_spec in Er. subst rqs'. okinv. rsimpl. split.
+    + now rewrite al_get_set_same by apply str_eqb_spec.
+    + intros c Hn. rewrite al_get_set_other, al_get_remove_other by (auto using str_eqb_spec). reflexivity.
+Qed.
+
+Lemma commit_pubrels_spec pks : forall l,
+  commit_pubrels l pks = {| a_committed := a_committed l ++ map APubRel pks; a_recorded := a_recorded l |}.
+Proof.
+  induction pks as [| k r IH]; intros l; cbn [commit_pubrels map].
+  - rewrite app_nil_r. destruct l; reflexivity.
+  - rewrite IH. cbn [a_committed a_recorded set_a_committed]. now rewrite <- app_assoc.
+Qed.
+
+Lemma try_ready_id dbg t why t' b : try_ready dbg t why = Ok (t', b) -> tr_reqs t' = tr_reqs t /\ tr_id t' = tr_id t.
+Proof. unfold try_ready. intros H. okinv; auto. Qed.
+
+(** the session a Connect resumes: only with clean = false and a saved one *)
+Definition resumed_session (st1 : rstate) (conn : connection) : option session :=
+  if c_clean conn then None
+  else match al_get str_eqb (c_client conn) (r_graveyard st1) with
+       | Some (Some ss) => Some ss
+       | _ => None
+       end.
+Definition session_present (st1 : rstate) (conn : connection) : bool :=
+  negb (c_clean conn) &&
+  match al_get str_eqb (c_client conn) (r_graveyard st1) with Some (Some _) => true | _ => false end.
+
+(** [c08_clean] / [c08_resume_state]: an admitted Connect ([st1] = state after the takeover step) *)
+Lemma hnc_session st conn link st' st1 :
+  handle_new_connection st conn link = Ok st' ->
+  validate_clientid (c_client conn) = true -> takeover st (c_client conn) = Ok st1 ->
+  (cf_max_connections (r_cfg st1) <=? slab_len (r_conns st1)) = false ->
+  slab_ok (r_conns st1) -> slab_ok (r_obufs st1) -> slab_ok (r_acks st1) ->
+  NoDup (map fst (r_graveyard st1)) ->
+  let rs := resumed_session st1 conn in
+  exists id conn' o' t',
+    slab_get (r_conns st') id = Some conn' /\ slab_get (r_obufs st') id = Some o' /\
+    get_tracker st' id = Ok t' /\
+    slab_get (r_acks st') id =
+      Some {| a_committed := AConnAck id (session_present st1 conn) :: map APubRel (o_pubrels o'); a_recorded := [] |} /\
+    al_get str_eqb (c_client conn) (r_cmap st') = Some id /\
+    c_client conn' = c_client conn /\ c_clean conn' = c_clean conn /\ o_client o' = c_client conn /\
+    o_inflight o' = [] /\
+    c_subs conn' = match rs with Some ss => ss_subs ss | None => c_subs conn end /\
+    tr_reqs t' = match rs with Some ss => tr_reqs (ss_tracker ss) | None => [] end /\
+    tr_id t' = match rs with Some ss => tr_id (ss_tracker ss) | None => c_client conn end /\
+    o_pubrels o' = match rs with Some ss => ss_pubrels ss | None => [] end /\
+    al_get str_eqb (c_client conn) (r_graveyard st') = None /\
+    (forall c, c <> c_client conn -> al_get str_eqb c (r_graveyard st') = al_get str_eqb c (r_graveyard st1)).
+Proof.
+  intros H Hv Ht Hcap Hok1 Hok2 Hok3 Hnd rs. unfold handle_new_connection in H.
+  rewrite Hv in H. cbn [negb] in H.
+  match type of H with bind ?x _ = _ => change x with (takeover st (c_client conn)) in H end.
+  rewrite Ht in H. cbn [bind] in H. rewrite Hcap in H.
+  set (client := c_client conn) in *.
+  set (saved := al_get str_eqb client (r_graveyard st1)) in *.
+  set (fresh_t := {| tr_id := client; tr_reqs := []; tr_status := Paused Busy |}) in *.
+  set (triple := if negb (c_clean conn)
+                 then match saved with
+                      | Some (Some ss) => (ss_tracker ss, set_c_subs conn (ss_subs ss), ss_pubrels ss)
+                      | _ => (fresh_t, conn, [])
+                      end
+                 else (fresh_t, conn, [])) in H.
+  assert (Htr : exists trk conn1 pubrels, triple = (trk, conn1, pubrels) /\
+            c_client conn1 = client /\ c_clean conn1 = c_clean conn /\ c_will conn1 = c_will conn /\
+            c_subs conn1 = match rs with Some ss => ss_subs ss | None => c_subs conn end /\
+            tr_reqs trk = match rs with Some ss => tr_reqs (ss_tracker ss) | None => [] end /\
+            tr_id trk = match rs with Some ss => tr_id (ss_tracker ss) | None => client end /\
+            pubrels = match rs with Some ss => ss_pubrels ss | None => [] end).
+  { unfold triple, rs, resumed_session. fold client. fold saved.
+    destruct (c_clean conn) eqn:Ecl; cbn [negb].
+    - do 3 eexists. split; [reflexivity|]. repeat split; auto.
+    - destruct saved as [[ss|]|]; do 3 eexists; (split; [reflexivity|]); repeat split; auto. }
+  destruct Htr as (trk & conn1 & pubrels & -> & Hc1 & Hc2 & Hc3 & Hc4 & Hr1 & Hr2 & Hr3).
+  cbn beta iota in H.
+  destruct (slab_insert (r_conns st1) (set_c_will conn1 None)) as [conns id] eqn:Ei1.
+  destruct (slab_insert (r_ibufs st1) _) as [ibufs id_i] eqn:Ei2.
+  destruct (slab_insert (r_obufs st1) _) as [obufs id_o] eqn:Ei3.
+  destruct (slab_insert (r_acks st1) _) as [acks id_a] eqn:Ei4.
+  destruct (slab_insert (r_trackers st1) trk) as [trackers id_t] eqn:Ei5.
+  destruct ((id_i =? id) && (id_o =? id) && (id_a =? id) && (id_t =? id)) eqn:Eal; cbn [negb] in H; [|discriminate].
+  apply andb_prop in Eal as [Eal E4]. apply andb_prop in Eal as [Eal E3]. apply andb_prop in Eal as [E1 E2].
+  apply N.eqb_eq in E1, E2, E3, E4. subst id_i id_o id_a id_t.
+  match type of H with bind (dbg_no_dups ?s id) _ = _ => set (st2 := s) in * end.
+  destruct (dbg_no_dups st2 id) as [[] | |]; cbn [bind] in H; try discriminate.
+  pose proof (slab_insert_get _ _ _ _ Hok1 Ei1) as G1.
+  pose proof (slab_insert_get _ _ _ _ Hok2 Ei3) as G3.
+  pose proof (slab_insert_get _ _ _ _ Hok3 Ei4) as G4.
+  (* the reschedule: only the tracker's status and the ready queue change *)
+  unfold reschedule in H.
+  destruct (get_tracker st2 id) as [t2 | |] eqn:Eg; cbn [bind] in H; try discriminate.
+  destruct (try_ready _ t2 SInit) as [[t3 woke] | |] eqn:Etr; cbn [bind] in H; try discriminate.
+  apply try_ready_id in Etr as [Etr1 Etr2].
+  assert (Ht2 : t2 = trk).
+  { unfold get_tracker, st2 in Eg. rsimpl in Eg. destruct (slab_get trackers id) as [t|] eqn:Es; [|discriminate].
+    injection Eg as ->. unfold slab_insert in Ei5. unfold slab_get in Es.
+    destruct (sl_free (r_trackers st1)) as [| k fr]; injection Ei5 as <- <-; cbn [sl_items] in Es.
+    - rewrite nthN_app_len in Es. now injection Es.
+    - rewrite nthN_setN, N.eqb_refl in Es. destruct (nthN (sl_items (r_trackers st1)) k); [now injection Es | discriminate]. }
+  subst t2.
+  exists id, (set_c_will conn1 None), {| o_client := client; o_link := link; o_inflight := []; o_pubrels := pubrels; o_last := 0 |}, t3.
+  assert (Hst' : r_conns st' = conns /\ r_obufs st' = obufs /\ r_acks st' = acks /\
+                 r_cmap st' = al_set str_eqb client id (r_cmap st1) /\
+                 r_graveyard st' = al_remove str_eqb client (r_graveyard st1) /\
+                 get_tracker st' id = Ok t3).
+  { destruct woke; okinv; unfold st2; rsimpl; repeat split; try reflexivity.
+    all: unfold get_tracker; rsimpl; unfold get_tracker, st2 in Eg; rsimpl in Eg;
+      destruct (slab_get trackers id) eqn:Es; try discriminate; now rewrite (slab_get_put_same _ _ _ _ Es). }
+  destruct Hst' as (-> & -> & -> & -> & -> & Hgt).
+  cbn [o_pubrels o_client o_inflight c_client c_clean c_subs set_c_will].
+  rewrite commit_pubrels_spec in G4. cbn [a_committed a_recorded app] in G4.
+  repeat split; auto; try congruence.
+  - now rewrite al_get_set_same by apply str_eqb_spec.
+  - now apply al_get_remove_same; [apply str_eqb_spec|].
+  - intros c Hn. now apply al_get_remove_other; [apply str_eqb_spec|].
+Qed.
